@@ -39,6 +39,7 @@ type TLCOpts struct {
 	Heap      string
 	ExtraArgs []string
 	Name      string // label for the run directory
+	Dump      string // -dump <file>: every distinct state as text (TLC appends ".dump")
 }
 
 type TLCResult struct {
@@ -107,13 +108,17 @@ func (c *Ctx) RunTLC(o TLCOpts) (*TLCResult, error) {
 			workers = 1
 		}
 	}
-	args := []string{"-XX:+UseParallelGC"}
+	// a moderate heap and few GC threads: with the JVM defaults (25% of RAM, 16 GC threads) TLC spends most of
+	// its wall time in the kernel on this machine (measured: 3m41 vs 23s for the same run)
+	args := []string{"-XX:+UseParallelGC", "-XX:ParallelGCThreads=4"}
 	if o.Xss != "" {
 		args = append(args, "-Xss"+o.Xss)
 	}
-	if o.Heap != "" {
-		args = append(args, "-Xmx"+o.Heap)
+	heap := o.Heap
+	if heap == "" {
+		heap = "6g"
 	}
+	args = append(args, "-Xmx"+heap)
 	if o.DFS {
 		args = append(args, "-Dtlc2.tool.queue.IStateQueue=StateDeque")
 	}
@@ -127,6 +132,9 @@ func (c *Ctx) RunTLC(o TLCOpts) (*TLCResult, error) {
 	}
 	if o.Coverage {
 		args = append(args, "-coverage", "1")
+	}
+	if o.Dump != "" {
+		args = append(args, "-dump", o.Dump)
 	}
 	args = append(args, "-seed", strconv.FormatInt(c.Seed, 10))
 	args = append(args, o.ExtraArgs...)
